@@ -59,16 +59,18 @@ def make_sources(root: Path, layout: list) -> dict:
             if e.get("link"):
                 real = root / "_real" / (e["id"] + "-" + p.name)
                 real.parent.mkdir(parents=True, exist_ok=True)
-            real.write_text(f"content-of-{e['id']}-{e['rel']}\n")
+            # "alike": byte-identical content shared by several distinct sources (log files, empty masks, ...)
+            real.write_text(f"alike-{e['alike']}\n" if e.get("alike") is not None else f"content-of-{e['id']}-{e['rel']}\n")
             if e.get("link") == "abs":
                 os.symlink(real, p)
             elif e.get("link") == "rel":
                 os.symlink(os.path.relpath(real, p.parent), p)
         else:
             p.mkdir(exist_ok=True)
-            (p / "member.txt").write_text(f"member-of-{e['id']}\n")
+            who = f"alike-{e['alike']}" if e.get("alike") is not None else e["id"]
+            (p / "member.txt").write_text(f"member-of-{who}\n")
             (p / "inner").mkdir(exist_ok=True)
-            (p / "inner" / "x.txt").write_text(f"inner-of-{e['id']}\n")
+            (p / "inner" / "x.txt").write_text(f"inner-of-{who}\n")
         cat[e["id"]] = {"kind": e["kind"], "path": str(p), "digest": digest(p), "link": e.get("link")}
     return cat
 
